@@ -1,3 +1,7 @@
+(* ADDED IN THE THIRD ROUND (NoPanic2.v): proof creation returns for EVERY request class on well-formed trees (all reachable writer states), the
+   verifier never runs out of fuel for lists of any length; the remarks 'proof creation with hash / seek / upgrade requests is not covered' and
+   'freedom from fuel exhaustion ... only under size conditions' below are superseded.
+   ---- header of the earlier rounds: ---- *)
 (* C09 — no request or proof from a peer can panic the node (pinned statements; proofs in NoPanic.v).
    In the model every u64 overflow, index out of bounds, unwrap of None and loop of the crate's proof code is
    an explicit Panic / OutOfFuel outcome; `returns r = true` means r is a value or an error.
@@ -14,6 +18,7 @@
    lists; proof creation with hash / seek / upgrade requests is not covered by a theorem. Both are covered on
    every run by tools/c09.py: boundary request tuples on six core shapes, structurally arbitrary proofs and the
    C04 alteration set, under catch_unwind + watchdog in a build with overflow checks, compared with the model. *)
+From HC Require Import Core NoPanic2.
 From HC Require Import Base NMap Codec CodecFacts Crypto FlatTree Storage Oplog Merkle NoPanic.
 
 Theorem C09_verify_returns_without_upgrade : forall cr t tf pf pk,
@@ -52,6 +57,78 @@ Theorem C09_create_block_proof_returns : forall t tf b,
   returns (create_valueless_proof t tf (Some b) None None None) = true.
 Proof. exact create_block_proof_returns. Qed.
 
+Theorem C09_create_proof_returns_for_every_request :
+  forall (t : mtree) (tf : file) (block hash : option req_block) (seek : option req_seek)
+           (upgrade : option req_upgrade),
+         tree_wf t ->
+         rblock_lim block = true ->
+         rblock_lim hash = true ->
+         rupgrade_lim upgrade = true -> returns (create_valueless_proof t tf block hash seek upgrade) = true.
+Proof. exact create_valueless_proof_returns. Qed.
+
+Theorem C09_core_create_proof_returns :
+  forall (block hash : option req_block) (seek : option req_seek) (upgrade : option req_upgrade)
+           (c : core) (w : world) (c' : core) (w' : world) (r : res (option proof)),
+         tree_wf (c_tree c) ->
+         rblock_lim block = true ->
+         rblock_lim hash = true ->
+         rupgrade_lim upgrade = true ->
+         core_create_proof block hash seek upgrade c w = (c', w', r) ->
+         returns r = true /\ c' = c /\ w_disk w' = w_disk w /\ w_journal w' = w_journal w.
+Proof. exact core_create_proof_returns. Qed.
+
+Theorem C09_create_proof_total_on_writer_states :
+  forall cr : crypto,
+         (forall x : bytes, Datatypes.length (cr_hash cr x) = 32%nat) ->
+         (forall x : bytes, all_zero (cr_hash cr x) = false) ->
+         forall (c : core) (d : disk) (bs : list bytes) (j : list sop) (ev : list event)
+           (block hash : option req_block) (seek : option req_seek) (upgrade : option req_upgrade) 
+           (c' : core) (w' : world) (r : res (option proof)),
+         wstate cr c d bs ->
+         N.of_nat (Datatypes.length bs) < LIM ->
+         rblock_lim block = true ->
+         rblock_lim hash = true ->
+         rupgrade_lim upgrade = true ->
+         core_create_proof block hash seek upgrade c {| w_disk := d; w_journal := j; w_events := ev |} =
+         (c', w', r) -> returns r = true /\ c' = c /\ w_disk w' = d /\ w_journal w' = j.
+Proof. exact create_proof_total_on_writer_states. Qed.
+
+Theorem C09_writer_states_are_wellformed :
+  forall cr : crypto,
+         (forall x : bytes, Datatypes.length (cr_hash cr x) = 32%nat) ->
+         (forall x : bytes, all_zero (cr_hash cr x) = false) ->
+         forall (c : core) (d : disk) (bs : list bytes),
+         wstate cr c d bs -> N.of_nat (Datatypes.length bs) < LIM -> tree_wf (c_tree c).
+Proof. exact wstate_tree_wf. Qed.
+
+Theorem C09_verify_upgrade_never_out_of_fuel :
+  forall (cr : crypto) (fork : N) (u : data_upgrade) (block_root : option node) 
+           (pk : bytes) (c : changeset),
+         upgrade_lim u = true ->
+         nodes_lim (du_nodes u) = true ->
+         nodes_lim (du_additional u) = true ->
+         (forall e : node, block_root = Some e -> n_index e < 4 * LIM) ->
+         (forall r : node, In r (cs_roots c) -> n_index r < 4 * LIM) ->
+         verify_upgrade cr fork u block_root pk c <> OutOfFuel.
+Proof. exact verify_upgrade_fuel. Qed.
+
+Theorem C09_verify_never_out_of_fuel :
+  forall (cr : crypto) (t : mtree) (tf : file) (pf : proof) (pk : bytes),
+         block_lim (p_block pf) = true ->
+         hash_lim (p_hash pf) = true ->
+         seek_lim (p_seek pf) = true ->
+         upgrade_nodes_lim pf -> own_roots_lim t -> verify_proof cr t tf pf pk <> OutOfFuel.
+Proof. exact verify_proof_not_out_of_fuel. Qed.
+
+Theorem C09_verify_returns_for_lists_of_any_length :
+  forall (cr : crypto) (t : mtree) (tf : file) (pf : proof) (pk : bytes),
+         block_lim (p_block pf) = true ->
+         hash_lim (p_hash pf) = true ->
+         seek_lim (p_seek pf) = true ->
+         proof_upgrade_ok t pf ->
+         upgrade_nodes_lim pf -> own_roots_lim t -> returns (verify_proof cr t tf pf pk) = true.
+Proof. exact verify_proof_returns_any_length. Qed.
+
 Print Assumptions C09_verify_returns_without_upgrade.
 Print Assumptions C09_verify_tree_returns.
 Print Assumptions C09_verify_never_panics.
@@ -60,3 +137,18 @@ Print Assumptions C09_upgrade_fuel_sources.
 Print Assumptions C09_create_block_proof_returns.
 Print Assumptions verify_proof_returns_ex.
 Print Assumptions verify_proof_no_panic_ex.
+Print Assumptions C09_create_proof_returns_for_every_request.
+Print Assumptions C09_core_create_proof_returns.
+Print Assumptions C09_create_proof_total_on_writer_states.
+Print Assumptions C09_writer_states_are_wellformed.
+Print Assumptions C09_verify_upgrade_never_out_of_fuel.
+Print Assumptions C09_verify_never_out_of_fuel.
+Print Assumptions C09_verify_returns_for_lists_of_any_length.
+Print Assumptions NoPanic2.sig_ok_needed_refuted.
+Print Assumptions NoPanic2.roots_ok_needed_refuted.
+Print Assumptions NoPanic2.index_lim_needed_refuted.
+Print Assumptions NoPanic2.sum_condition_needed_refuted.
+Print Assumptions NoPanic2.create_classes_ok.
+Print Assumptions NoPanic2.create_boundary_returns.
+Print Assumptions NoPanic2.hostile_grow_ex.
+Print Assumptions NoPanic2.long_lists_ex.
